@@ -150,17 +150,24 @@ func H_SlotSerialised() {
 
 func history(ids []string, withMarshal bool) {
 	steps := 3
-	if verif.Tier() == "thorough" {
-		steps = 4
-	}
 	nops := 3
 	if withMarshal {
 		nops = 4
-		steps = 3
 	}
 	ks3 := keys()
 	ks := &keystorage.KeyStorage{}
 	m := &model{}
+	if !withMarshal && verif.Tier() == "thorough" && verif.Choose("seeded", 2) == 1 {
+		// thorough: also the 3- and 4-call histories that begin with a successful Initialize (slot A,
+		// the ids being arbitrary) and a successful AddKeySlot (slot B), i.e. from every two-slot state
+		verif.Assert(ks.Initialize(masterKey, ids[0], ks3[0].pub) == nil, "first initialisation succeeds")
+		nk := verif.Choose("newKey0", 2)
+		verif.Assert(ks.AddKeySlot(ids[1], ks3[nk].pub, ids[0], ks3[0].priv) == nil, "a second slot authorised by the first is added")
+		m.initialized = true
+		m.slots = []slot{{ids[0], 0}, {ids[1], nk}}
+		verif.Cover("from two slots")
+		steps = 2
+	}
 	n := 1 + verif.Choose("nsteps", steps)
 	for s := 0; s < n; s++ {
 		switch verif.Choose("op", nops) {
